@@ -4,6 +4,10 @@
 usage: matrix.py <tier> [name ...] [name=C01,C02 ...]"""
 import json, os, re, subprocess, sys, time
 V = os.path.dirname(os.path.dirname(os.path.abspath(__file__)))
+REPO = os.environ.get('RV_REPO') or os.environ.get('VP_RUN_REPO') or '/repo'
+if os.environ.get('VP_RUN_REPO'):
+    os.environ['RV_REPO'] = os.environ['VP_RUN_REPO']
+ALL = ['C%02d' % i for i in range(1, 19)]
 tier = sys.argv[1]
 sel = {}
 for a in sys.argv[2:]:
@@ -12,7 +16,7 @@ for a in sys.argv[2:]:
         sel[n] = cs.split(',')
     else:
         sel[a] = None
-out_path = os.path.join(V, 'seeded', 'RESULTS.json')
+out_path = os.environ.get('MATRIX_OUT') or os.path.join(V, 'seeded', 'RESULTS.json')
 results = json.load(open(out_path)) if os.path.exists(out_path) else {}
 names = sorted(d for d in os.listdir(os.path.join(V, 'seeded')) if os.path.isdir(os.path.join(V, 'seeded', d)))
 for n in names:
@@ -20,9 +24,11 @@ for n in names:
         continue
     meta = json.load(open(os.path.join(V, 'seeded', n, 'meta.json')))
     checks = sel.get(n) or [meta['property']] + list(meta.get('also', []))
-    if subprocess.run(['git', '-C', '/repo', 'status', '--porcelain', '--', 'src'], capture_output=True, text=True).stdout.strip():
-        sys.exit('/repo has uncommitted changes')
-    if subprocess.run(['git', '-C', '/repo', 'apply', os.path.join(V, 'seeded', n, 'patch.diff')]).returncode != 0:
+    if os.environ.get('MATRIX_ALL'):
+        checks = [c for c in ALL if '%s/%s' % (c, tier) not in results.get(n, {})]
+    if subprocess.run(['git', '-C', REPO, 'status', '--porcelain', '--', 'src'], capture_output=True, text=True).stdout.strip():
+        sys.exit(REPO + ' has uncommitted changes')
+    if subprocess.run(['git', '-C', REPO, 'apply', os.path.join(V, 'seeded', n, 'patch.diff')]).returncode != 0:
         print(n, 'PATCH DOES NOT APPLY'); results.setdefault(n, {})['_patch'] = 'does not apply'; continue
     try:
         for c in checks:
@@ -34,5 +40,5 @@ for n in names:
                                                                   summary=(summary[0] if summary else p.stdout[-200:] + p.stderr[-300:]), wall=round(time.time() - t0))
             print(n, c, tier, 'CAUGHT' if (p.returncode == 1 and 'VIOLATION' in p.stdout) else ('missed' if p.returncode == 0 else 'CHECK-ERROR rc=%s' % p.returncode), keys[:3], flush=True)
     finally:
-        subprocess.run(['git', '-C', '/repo', 'checkout', '--', '.'])
+        subprocess.run(['git', '-C', REPO, 'checkout', '--', '.'])
     json.dump(results, open(out_path, 'w'), indent=1, sort_keys=True)
